@@ -20,7 +20,7 @@ SPEC = {
     "spec_check": vlib.spec_via_driver("drv_c16"),
     "classify": lambda fl: KNOWN_CLASSES.get(fl.get("class")),
     "nontrivial": lambda r, a: a.startswith("ok") or a.startswith("err"),
-    "rule": "static list of every Square implementor (21 primitives, 18 named controlled gates, Loop) and 58 written-out nestings of "
+    "rule": "static list of every Square implementor (21 primitives, 18 named controlled gates, Loop) and 76 written-out nestings of "
             "C<..>, Kron<..,..>, Loop (C<C<RY>>, C<C<C<RZ>>>, Kron<U2,CX>, C<Kron<S,T>>, C<U2>, C<C<U2>>, C<Kron<U2,X>>, Kron<C<U2>,H>, "
             "Kron<U3,X>, C<Loop>, Kron<Loop,H>, ...) at generated parameters (0, +-pi/2, +-pi, >2pi, 1e-9, negative, random); a second "
             "stream gives the parameters kinds Direct/Reference/FFIRef by cycling masks (r, f, dr, rd, fd, drf, ddr): square() is called "
@@ -34,6 +34,14 @@ SPEC = {
             "square()?.apply(psi1), .apply_slice(psi2) on fixed non-symmetric vectors and .apply_mat(Psi) on a 2^n x 3 matrix, "
             "(A) vs the model's square matrix times the input to 1e-12, (B) vs c * matrix()*matrix() * input (the implementation's own matrix() of the "
             "ORIGINAL, the same scalar c as for the matrices) to 1e-9 - a returned gate whose matrix() is right but which acts differently fails here. "
+            "Error payload: an OpNotImplemented answer carries both strings (blanks as _, parameter lists removed): (A) the model's ('square', description "
+            "of the refusing gate: the U3, or the Kron that replaced an inner error), (B) the operation must be 'square' and the gate a sub-gate of the receiver "
+            "(U3, C<U3>, C<C<U3>>, CU3, C<CU3>, Kron<H,U3>, Kron<C<U3>,Loop>, C<Kron<Kron<RX,U3>,T>>, ...). "
+            "Request sq2 (all-Direct cases): the RETURNED gate squared again (second square of U2 = default square of U3, Kron<U3,Kron<I,I>>, ...): matrices "
+            "and error payload as above. "
+            "Request sqconj (every case with is_stabilizer() on <= 3 qubits: 15 Clifford primitives, Clifford Loops on 1/2/3 qubits with sign-flipping bodies "
+            "and 1..5 iterations, Kron of them, Kron of Clifford primitives): square()?.conjugate(P) for ALL 4^k Pauli strings vs the original's conjugate "
+            "applied twice (signs xor-ed) and vs the returned gate's own matrix (M P M^H = +-P'), (A) vs the conjugation model of the squared term. "
             "Non-trivial = the call returned (value or error); distinct = distinct request line.",
     "exhaustive": False,
 }
